@@ -21,6 +21,7 @@ from .values import (
     JSBoundMethod,
     to_string,
     to_number,
+    as_double,
 )
 from .errors import JSError, MemoryLimitError, TimeLimitError
 
@@ -494,171 +495,133 @@ class Context:
         math_obj.set("SQRT2", math.sqrt(2))
         math_obj.set("SQRT1_2", math.sqrt(0.5))
 
-        # Basic functions
-        def abs_fn(*args):
-            x = to_number(args[0]) if args else float("nan")
-            return abs(x)
+        nan, inf = float("nan"), float("inf")
 
-        def floor_fn(*args):
-            x = to_number(args[0]) if args else float("nan")
-            return math.floor(x)
+        def arg(args, i=0):
+            """ToNumber of the i-th argument (missing -> NaN)."""
+            return to_number(args[i]) if len(args) > i else nan
 
-        def ceil_fn(*args):
-            x = to_number(args[0]) if args else float("nan")
-            return math.ceil(x)
+        def unary(fn, domain_error=nan):
+            """Wrap a host math function of one double: never raises. Host domain errors
+            (sin(Infinity), log(-1), ...) are NaN, overflow is +-Infinity as in IEEE 754."""
+
+            def wrapper(*args):
+                x = arg(args)
+                if math.isnan(x):
+                    return nan
+                try:
+                    return fn(x)
+                except ValueError:
+                    return domain_error(x) if callable(domain_error) else domain_error
+                except OverflowError:
+                    return -inf if x < 0 and fn in (math.sinh, math.expm1) else inf
+
+            return wrapper
+
+        def integral(fn):
+            """floor / ceil / trunc: identity on NaN, infinities and zeros (keeps -0)."""
+
+            def wrapper(*args):
+                x = arg(args)
+                if isinstance(x, int) or math.isnan(x) or math.isinf(x) or x == 0:
+                    return x
+                r = fn(x)
+                return math.copysign(0.0, x) if r == 0 else as_double(r)
+
+            return wrapper
+
+        abs_fn = unary(abs)
+        floor_fn = integral(math.floor)
+        ceil_fn = integral(math.ceil)
+        trunc_fn = integral(math.trunc)
 
         def round_fn(*args):
-            x = to_number(args[0]) if args else float("nan")
-            # JavaScript-style round (round half towards positive infinity)
-            return math.floor(x + 0.5)
+            # floor(x + 0.5) in exact arithmetic; -0 for -0.5 <= x < 0
+            x = arg(args)
+            if isinstance(x, int) or math.isnan(x) or math.isinf(x) or x == 0 or abs(x) >= 2.0**52:
+                return x
+            r = math.floor(x)
+            if x - r >= 0.5:
+                r += 1
+            return math.copysign(0.0, x) if r == 0 else r
 
-        def trunc_fn(*args):
-            x = to_number(args[0]) if args else float("nan")
-            return math.trunc(x)
+        def extremum(less, empty):
+            def wrapper(*args):
+                best = empty
+                for a in [arg(args, i) for i in range(len(args))]:
+                    if math.isnan(a) or math.isnan(best):
+                        best = nan
+                    elif less(a, best) or (a == best == 0 and less(math.copysign(1, a), math.copysign(1, best))):
+                        best = a
+                return best
 
-        def min_fn(*args):
-            if not args:
-                return float("inf")
-            nums = [to_number(a) for a in args]
-            return min(nums)
+            return wrapper
 
-        def max_fn(*args):
-            if not args:
-                return float("-inf")
-            nums = [to_number(a) for a in args]
-            return max(nums)
+        min_fn = extremum(lambda a, b: a < b, inf)
+        max_fn = extremum(lambda a, b: a > b, -inf)
 
         def pow_fn(*args):
-            x = to_number(args[0]) if args else float("nan")
-            y = to_number(args[1]) if len(args) > 1 else float("nan")
-            return math.pow(x, y)
+            return VM._pow(arg(args, 0), arg(args, 1))
 
-        def sqrt_fn(*args):
-            x = to_number(args[0]) if args else float("nan")
-            if x < 0:
-                return float("nan")
-            return math.sqrt(x)
-
-        def sin_fn(*args):
-            x = to_number(args[0]) if args else float("nan")
-            return math.sin(x)
-
-        def cos_fn(*args):
-            x = to_number(args[0]) if args else float("nan")
-            return math.cos(x)
-
-        def tan_fn(*args):
-            x = to_number(args[0]) if args else float("nan")
-            return math.tan(x)
-
-        def asin_fn(*args):
-            x = to_number(args[0]) if args else float("nan")
-            if x < -1 or x > 1:
-                return float("nan")
-            return math.asin(x)
-
-        def acos_fn(*args):
-            x = to_number(args[0]) if args else float("nan")
-            if x < -1 or x > 1:
-                return float("nan")
-            return math.acos(x)
-
-        def atan_fn(*args):
-            x = to_number(args[0]) if args else float("nan")
-            return math.atan(x)
+        sqrt_fn = unary(math.sqrt)
+        sin_fn = unary(math.sin)
+        cos_fn = unary(math.cos)
+        tan_fn = unary(math.tan)
+        asin_fn = unary(math.asin)
+        acos_fn = unary(math.acos)
+        atan_fn = unary(math.atan)
+        sinh_fn = unary(math.sinh)
+        cosh_fn = unary(math.cosh)
+        tanh_fn = unary(math.tanh)
+        asinh_fn = unary(math.asinh)
+        acosh_fn = unary(math.acosh)
+        atanh_fn = unary(math.atanh, lambda x: math.copysign(inf, x) if abs(x) == 1 else nan)
+        exp_fn = unary(math.exp)
+        expm1_fn = unary(math.expm1)
+        zero_is_minus_inf = lambda x: -inf if x == 0 else nan
+        log_fn = unary(math.log, zero_is_minus_inf)
+        log2_fn = unary(math.log2, zero_is_minus_inf)
+        log10_fn = unary(math.log10, zero_is_minus_inf)
+        log1p_fn = unary(math.log1p, lambda x: -inf if x == -1 else nan)
+        cbrt_fn = unary(lambda x: x if x == 0 or math.isinf(x) else math.copysign(abs(x) ** (1 / 3), x))
 
         def atan2_fn(*args):
-            y = to_number(args[0]) if args else float("nan")
-            x = to_number(args[1]) if len(args) > 1 else float("nan")
-            return math.atan2(y, x)
-
-        def log_fn(*args):
-            x = to_number(args[0]) if args else float("nan")
-            if x <= 0:
-                return float("-inf") if x == 0 else float("nan")
-            return math.log(x)
-
-        def exp_fn(*args):
-            x = to_number(args[0]) if args else float("nan")
-            return math.exp(x)
+            y, x = arg(args, 0), arg(args, 1)
+            return nan if math.isnan(x) or math.isnan(y) else math.atan2(y, x)
 
         def random_fn(*args):
             return random.random()
 
         def sign_fn(*args):
-            x = to_number(args[0]) if args else float("nan")
-            if math.isnan(x):
-                return float("nan")
-            if x > 0:
-                return 1
-            if x < 0:
-                return -1
-            return 0
+            x = arg(args)
+            if math.isnan(x) or x == 0:
+                return x
+            return 1 if x > 0 else -1
+
+        def to_uint32(x: float) -> int:
+            return 0 if math.isnan(x) or math.isinf(x) else int(x) & 0xFFFFFFFF
 
         def imul_fn(*args):
-            # 32-bit integer multiplication
-            a = int(to_number(args[0])) if args else 0
-            b = int(to_number(args[1])) if len(args) > 1 else 0
-            # Convert to 32-bit signed integers
-            a = a & 0xFFFFFFFF
-            b = b & 0xFFFFFFFF
-            if a >= 0x80000000:
-                a -= 0x100000000
-            if b >= 0x80000000:
-                b -= 0x100000000
-            result = (a * b) & 0xFFFFFFFF
-            if result >= 0x80000000:
-                result -= 0x100000000
-            return result
+            result = (to_uint32(arg(args, 0)) * to_uint32(arg(args, 1))) & 0xFFFFFFFF
+            return result - 0x100000000 if result >= 0x80000000 else result
 
         def fround_fn(*args):
-            # Convert to 32-bit float
             import struct
 
-            x = to_number(args[0]) if args else float("nan")
-            # Pack as 32-bit float and unpack as 64-bit
-            packed = struct.pack("f", x)
-            return struct.unpack("f", packed)[0]
+            x = arg(args)
+            try:
+                return struct.unpack("f", struct.pack("f", x))[0]
+            except OverflowError:  # beyond the binary32 range: rounds to an infinity
+                return math.copysign(inf, x)
 
         def clz32_fn(*args):
-            # Count leading zeros in 32-bit integer
-            x = int(to_number(args[0])) if args else 0
-            x = x & 0xFFFFFFFF
-            if x == 0:
-                return 32
-            count = 0
-            while (x & 0x80000000) == 0:
-                count += 1
-                x <<= 1
-            return count
+            return 32 - to_uint32(arg(args)).bit_length()
 
         def hypot_fn(*args):
-            if not args:
-                return 0
-            nums = [to_number(a) for a in args]
-            return math.hypot(*nums)
-
-        def cbrt_fn(*args):
-            x = to_number(args[0]) if args else float("nan")
-            if x < 0:
-                return -((-x) ** (1 / 3))
-            return x ** (1 / 3)
-
-        def log2_fn(*args):
-            x = to_number(args[0]) if args else float("nan")
-            return math.log2(x) if x > 0 else float("nan")
-
-        def log10_fn(*args):
-            x = to_number(args[0]) if args else float("nan")
-            return math.log10(x) if x > 0 else float("nan")
-
-        def expm1_fn(*args):
-            x = to_number(args[0]) if args else float("nan")
-            return math.expm1(x)
-
-        def log1p_fn(*args):
-            x = to_number(args[0]) if args else float("nan")
-            return math.log1p(x) if x > -1 else float("nan")
+            nums = [arg(args, i) for i in range(len(args))]
+            if any(math.isinf(v) for v in nums):
+                return inf
+            return math.hypot(*nums) if nums else 0
 
         # Set all methods
         math_obj.set("abs", abs_fn)
@@ -690,6 +653,12 @@ class Context:
         math_obj.set("log10", log10_fn)
         math_obj.set("expm1", expm1_fn)
         math_obj.set("log1p", log1p_fn)
+        math_obj.set("sinh", sinh_fn)
+        math_obj.set("cosh", cosh_fn)
+        math_obj.set("tanh", tanh_fn)
+        math_obj.set("asinh", asinh_fn)
+        math_obj.set("acosh", acosh_fn)
+        math_obj.set("atanh", atanh_fn)
 
         return math_obj
 
